@@ -52,6 +52,33 @@ def make_chunks(seed, k, n):
         prms['SLICING_PRMS'] = sli
         prms.setdefault('LOWESS', {'frac': [0.35, 0.6, 0.2][j % 3]})
         out.append((rows, prms))
+    if k % 2 == 1 and n >= 2:
+        # twin chunks: the SAME hits, per-call parameters differing in a few leaves only (anything keyed on the data
+        # alone - a cache, a memo - would hand one chunk the other's intermediate results)
+        rng = random.Random(f'{seed}:c13twin:{k}')
+        rows0, prms0 = out[0]
+        for j in range(1, n):
+            import copy
+            pj = copy.deepcopy(prms0)
+            for _ in range(rng.choice([1, 2, 3])):
+                what = rng.choice(['lowess_frac', 'lowess_it', 'gain', 'rescale', 'perc', 'pad', 'minrange', 'okta0'])
+                if what == 'lowess_frac':
+                    pj['LOWESS'] = dict(pj.get('LOWESS', {}), frac=[0.9, 0.15, 0.5][j % 3])
+                elif what == 'lowess_it':
+                    pj['LOWESS'] = dict(pj.get('LOWESS', {}), it=[1, 5, 2][j % 3])
+                elif what == 'gain':
+                    pj['LAYERING_PRMS']['gmm_kwargs']['delta_mul_gain'] = [0.6, 1.0, 0.8][j % 3]
+                elif what == 'rescale':
+                    pj['LAYERING_PRMS']['gmm_kwargs']['rescale_0_to_x'] = [10, None, 1000][j % 3]
+                elif what == 'perc':
+                    pj['BASE_LVL_HEIGHT_PERC'] = [50, 95, 0][j % 3]
+                elif what == 'pad':
+                    pj['GROUPING_PRMS'] = dict(pj.get('GROUPING_PRMS', {}), height_pad_perc=[40, 5, 100][j % 3])
+                elif what == 'minrange':
+                    pj['SLICING_PRMS']['height_scale_kwargs'] = {'min_range': [300, 8000, 50][j % 3]}
+                else:
+                    pj['MAX_HITS_OKTA0'] = [0, 5, 1][j % 3]
+            out[j] = (list(rows0), pj)
     return out
 
 
@@ -98,12 +125,20 @@ def schedules(n):
     yield from rec([4] * n, [])
 
 
+def _fresh_ref(args):
+    """The isolated run of one chunk in a fresh interpreter (spawned, one task per process): nothing any other
+    chunk did can have touched it."""
+    seed, k, n, j = args
+    common.import_ampycloud()
+    rows, prms = make_chunks(seed, k, n)[j]
+    return isolated(rows, prms)
+
+
 def _interleave(args):
-    seed, k, n, sched_slice = args
+    seed, k, n, sched_slice, refs = args
     common.import_ampycloud()
     from ampycloud.data import CeiloChunk
     specs = make_chunks(seed, k, n)
-    refs = [isolated(r, p) for r, p in specs]
     bad = []
     count = 0
     with warnings.catch_warnings():
@@ -174,10 +209,9 @@ class Baton:
 
 
 def _threads(args):
-    seed, k, n, mode = args
+    seed, k, n, mode, refs = args
     amp = common.import_ampycloud()
     specs = make_chunks(seed, k, n)
-    refs = [isolated(r, p) for r, p in specs]
     results = [None] * n
     errors = [None] * n
     baton = Baton(n, f'{seed}:{k}', 0.02) if mode == 'baton' else None
@@ -252,10 +286,9 @@ def _locations(spec, root):
 def _systematic(args):
     """Thread A is paused the first time it is about to execute source line `loc`; thread B then runs to
     completion; A resumes. Both must end exactly as in isolation."""
-    seed, k, locs = args
+    seed, k, locs, refs = args
     amp = common.import_ampycloud()
     specs = make_chunks(seed, k, 2)
-    refs = [isolated(r, p) for r, p in specs]
     root = str(common.REPO / 'src' / 'ampycloud')
     bad = []
     for who in (0, 1):
@@ -316,24 +349,35 @@ def run(chk):
     all_scheds = list(schedules(n_chunks))
     n_sets = 3 if quick else 1
     chk.rule = (f'(a) all {len(all_scheds)} interleavings at stage granularity of {n_chunks} chunks x 4 stage calls, on {n_sets} '
-                'sets of scenes with distinct data and per-call parameters; (b) 2-3 threads running ampycloud.run under seeded '
+                'sets of scenes with distinct data (odd sets: the same hits) and per-call parameters, references = isolated runs in fresh interpreters; (b) 2-3 threads running ampycloud.run under seeded '
                 'baton pre-emption at line events inside ampycloud/*; (c) free-running threads with a 1 us switch interval; each '
                 'chunk compared bit for bit with its isolated run; non-trivial = every schedule / thread set (all chunks report '
                 'clouds); distinct by schedule or by seed')
+    n_thr = 24 if quick else 400
+    # isolated references: every chunk alone in a fresh interpreter
+    import multiprocessing
+    need = [(k, n_chunks) for k in range(n_sets)] + [(100 + j, 2 + j % 2) for j in range(n_thr)] + [(200, 2)]
+    ref_tasks = [(chk.seed, k, n, j) for k, n in need for j in range(n)]
+    with multiprocessing.get_context('spawn').Pool(16, maxtasksperchild=1) as fp:
+        fresh = fp.map(_fresh_ref, ref_tasks, chunksize=1)
+    refs_of = {}
+    for (sd, k, n, j), ob in zip(ref_tasks, fresh):
+        refs_of.setdefault(k, [None] * n)[j] = ob
+    chk.count('isolated_references_in_fresh_processes', len(ref_tasks))
+    chk.count('twin_chunk_sets_same_hits_different_parameters', sum(1 for k, n in need if k % 2 == 1))
     tasks = []
     for k in range(n_sets):
         per = max(1, len(all_scheds) // 16 + 1)
         for s in range(0, len(all_scheds), per):
-            tasks.append((chk.seed, k, n_chunks, all_scheds[s:s + per]))
-    n_thr = 24 if quick else 400
-    thr_tasks = [(chk.seed, 100 + j, 2 + j % 2, 'baton' if j % 3 else 'free') for j in range(n_thr)]
+            tasks.append((chk.seed, k, n_chunks, all_scheds[s:s + per], refs_of[k]))
+    thr_tasks = [(chk.seed, 100 + j, 2 + j % 2, 'baton' if j % 3 else 'free', refs_of[100 + j]) for j in range(n_thr)]
     # systematic pre-emption: pause one thread before each distinct source line of ampycloud it executes
     root = str(common.REPO / 'src' / 'ampycloud')
     all_locs = _locations(make_chunks(chk.seed, 200, 2)[0], root)
     small = [l for l in all_locs if not l[0].endswith(os.sep + 'data.py') and not l[0].endswith('logger.py')]
     big = [l for l in all_locs if l[0].endswith(os.sep + 'data.py')]
     locs = small + (chk.rng.sample(big, min(len(big), 60)) if quick else big)
-    sys_tasks = [(chk.seed, 200, locs[i::16]) for i in range(16)]
+    sys_tasks = [(chk.seed, 200, locs[i::16], refs_of[200]) for i in range(16)]
     with Pool(16) as pool:
         inter = pool.map(_interleave, tasks, chunksize=1)
         thr = pool.map(_threads, thr_tasks, chunksize=1)
@@ -384,22 +428,28 @@ def run(chk):
     return None
 
 
+def _refs_now(seed, k, n):
+    import multiprocessing
+    with multiprocessing.get_context('spawn').Pool(min(n, 4), maxtasksperchild=1) as fp:
+        return fp.map(_fresh_ref, [(seed, k, n, j) for j in range(n)], chunksize=1)
+
+
 def replay(chk, obj):
     case = obj.get('case') or {}
     g = case.get('gen', {})
     if 'schedule' in case:
-        r = _interleave((g['seed'], g['k'], g['n'], [case['schedule']]))
+        r = _interleave((g['seed'], g['k'], g['n'], [case['schedule']], _refs_now(g['seed'], g['k'], g['n'])))
         print(r)
         return 1 if r['bad'] else 0
     if g.get('mode') == 'systematic':
         root = str(common.REPO / 'src' / 'ampycloud')
         locs = [l for l in _locations(make_chunks(g['seed'], g['k'], 2)[0], root)
                 if os.path.basename(l[0]) == case['loc'][0] and l[1] == case['loc'][1]]
-        r = _systematic((g['seed'], g['k'], locs))
+        r = _systematic((g['seed'], g['k'], locs, _refs_now(g['seed'], g['k'], 2)))
         print(r)
         return 1 if r['bad'] else 0
     if 'mode' in g:
-        r = _threads((g['seed'], g['k'], 2 + (g['k'] - 100) % 2, g['mode']))
+        r = _threads((g['seed'], g['k'], 2 + (g['k'] - 100) % 2, g['mode'], _refs_now(g['seed'], g['k'], 2 + (g['k'] - 100) % 2)))
         print(r)
         return 1 if r['bad'] else 0
     return 2
